@@ -1,6 +1,9 @@
 package certs
 
 import (
+	"crypto"
+	"crypto/ed25519"
+	"io"
 	"time"
 
 	"hop.computer/hop/keys"
@@ -217,3 +220,97 @@ func VH_C04_matchesname_is_label_and_type() {
 //verif:cover accepted;rejected-type;rejected-name;rejected-time;rejected-unknown;rejected-signature
 //verif:timeout 600
 func VH_C01_chain_verifies_iff_valid() { c04Iff(2) }
+
+// ---- issuing functions: "every chain produced by the issuing functions verifies" ----
+
+func c04NewKeyFromSeed(seed []byte) ed25519.PrivateKey {
+	k := make([]byte, 64)
+	copy(k, seed)
+	return ed25519.PrivateKey(k)
+}
+
+// idealised signing: the first signature byte names the signing key (see the
+// verification stub above), the rest is fresh.
+func c04Sign(priv ed25519.PrivateKey, _ io.Reader, msg []byte, _ crypto.SignerOpts) ([]byte, error) {
+	sig := verifFreshBytes("sig", 64)
+	sig[0] = priv[0]
+	return sig, nil
+}
+
+func c04KeyFor(c *Certificate) {
+	k := new([KeyLen]byte)
+	k[0] = c.PublicKey[0] // idealised key pair: same key id
+	c.privateKey = k
+}
+
+// A chain root -> IssueIntermediate -> IssueLeafAt verifies at every instant of
+// the leaf's own validity window, and the window honours the request up to the
+// parent's expiry.
+//
+//verif:prop C04
+//verif:replay none
+//verif:stub crypto/ed25519.NewKeyFromSeed = c04NewKeyFromSeed
+//verif:stub (crypto/ed25519.PrivateKey).Sign = c04Sign
+//verif:stub golang.org/x/crypto/sha3.New256 = c18FakeSHA3
+//verif:bounds root with symbolic validity window (32-bit seconds), key id and 2-byte fingerprint; intermediate issued by the real IssueIntermediate at an arbitrary clock reading; leaf issued by the real IssueLeafAt at a symbolic instant (32-bit seconds) for a symbolic validity (0..2^32-1 s) with 0..1 names of 0 or 2 symbolic bytes; verification instant symbolic inside the leaf's window; signatures idealised (signature names the key id; key pair = same id), fingerprints fresh and assumed non-zero
+//verif:cover intermediate refused;leaf refused;chain verified;leaf clamped;leaf not clamped
+//verif:timeout 600
+func VH_C04_issued_chain_verifies_throughout_leaf_validity() {
+	root := &Certificate{
+		Version:     Version,
+		Type:        Root,
+		IssuedAt:    time.Unix(int64(verifU32("root-issued")), 0),
+		ExpiresAt:   time.Unix(int64(verifU32("root-expires")), 0),
+		Fingerprint: c04FP("root-fp"),
+	}
+	verifAssume(root.Fingerprint != zero)
+	root.PublicKey[0] = verifU8("root-key")
+	c04KeyFor(root)
+
+	interID := &Identity{}
+	interID.PublicKey[0] = verifU8("inter-key")
+	inter, err := IssueIntermediate(root, interID)
+	if err != nil {
+		verifCover("intermediate refused")
+		return
+	}
+	verifAssume(inter.Fingerprint != zero)
+	verifAssert(verifAnd(!inter.IssuedAt.Before(root.IssuedAt), !inter.ExpiresAt.After(root.ExpiresAt)), "C04: an issued intermediate never outlives or predates its root")
+	c04KeyFor(inter)
+
+	leafID := &Identity{}
+	leafID.PublicKey[0] = verifU8("leaf-key")
+	var want Name
+	if verifBool("leaf-named") {
+		n := verifPick("leaf-namelen", 0, 2)
+		want = Name{Label: verifBytes("leaf-name", n), Type: IDType(verifU8("leaf-nametype") % 4)}
+		leafID.Names = []Name{want}
+	}
+	at := int64(verifU32("leaf-issued-at"))
+	secs := int64(verifU32("leaf-validity-seconds"))
+	leaf, err := IssueLeafAt(inter, leafID, time.Unix(at, 0), time.Duration(secs)*time.Second)
+	parentValidAt := verifAnd(inter.IssuedAt.Unix() <= at, at < inter.ExpiresAt.Unix())
+	if err != nil {
+		verifCover("leaf refused")
+		verifAssert(verifOr(secs == 0, !parentValidAt), "C04: IssueLeafAt refuses only a non-positive validity or an instant at which the parent is not valid")
+		return
+	}
+	verifAssert(verifAnd(secs > 0, parentValidAt), "C04: IssueLeafAt issues only with a positive validity while the parent is valid")
+	verifAssert(leaf.IssuedAt.Unix() == at, "C04: issued leaf starts at the requested instant")
+	wantExp := at + secs
+	if wantExp > inter.ExpiresAt.Unix() {
+		wantExp = inter.ExpiresAt.Unix()
+		verifCover("leaf clamped")
+	} else {
+		verifCover("leaf not clamped")
+	}
+	verifAssert(leaf.ExpiresAt.Unix() == wantExp, "C04: issued leaf expires at min(requested expiry, parent's expiry)")
+
+	var store Store
+	store.AddCertificate(root)
+	now := int64(verifU32("now"))
+	verifAssume(leaf.IssuedAt.Unix() <= now && now < leaf.ExpiresAt.Unix())
+	verr := store.VerifyLeaf(leaf, VerifyOptions{PresentedIntermediate: inter, Name: want, CurrentTime: time.Unix(now, 0)})
+	verifAssert(verr == nil, "C04: a chain produced by the issuing functions verifies at every instant of the leaf's validity")
+	verifCover("chain verified")
+}
